@@ -10,6 +10,9 @@
    per-path guard [ok_path] that excludes exactly those shapes. *)
 From Coq Require Import List NArith Bool String.
 From GoGit Require Import Base.Out Model.Status Spec.GitStatus Proofs.C27.
+From GoGit Require Import Model.StatTime Proofs.C27Time.
+From GoGit Require Import Model.StatusTrie Spec.GitStatusTrie Proofs.C27Trie Proofs.C27TrieMain.
+From GoGit Require Model.DiffTree Proofs.C27Small Proofs.C27Unflat.
 Import ListNotations.
 Local Open Scope N_scope.
 
@@ -115,6 +118,145 @@ Theorem C27_shortcut_sound_refuted : exists c sz h,
 Proof. exists 1, 2, [TStage; TWrite 2 2; TTick; TTouchIndex]. split; reflexivity. Qed.
 Print Assumptions C27_shortcut_sound_refuted.
 
+(* --- from (HEAD tree, index, worktree).  Model/StatusTrie.v: the three noder trees
+   (tree noder; index noder with upholdExecutableBit; filesystem noder with the
+   metadata shortcut and the ignore pruning, the ignore verdict computed by the
+   gitignore model of C49 from the .gitignore files of the worktree), the two
+   merkletrie walks (Model/DiffTree.v, C44) and the fold into the Status map.
+   For every well-formed state (names distinct per directory, non-empty and free
+   of '/'; any depth, any number of entries) the walk terminates and its listing
+   is Worktree.status of the flattened maps (Model/Status.v) *)
+Theorem C27_walk_flat : forall ts ig ps,
+  C27TrieMain.ts_wf ts = true -> status_rec ts ps = Some (status (flat_of ts ig) ps).
+Proof. intros ts ig ps W. exact (status_rec_flat ts ig W ps). Qed.
+Print Assumptions C27_walk_flat.
+
+(* ... hence git's listing (ignore verdict of dir.c with .git/info/exclude,
+   Spec/GitIgnore.v), when no entry is skip-worktree and the guard ok_path holds *)
+Theorem C27_status_eq : forall ts ps,
+  C27TrieMain.ts_wf ts = true -> ts_skip ts = [] -> forallb (ok_path (flat_git ts)) ps = true ->
+  status_rec ts ps = Some (git_status_ts ts ps).
+Proof. exact status_rec_git. Qed.
+Print Assumptions C27_status_eq.
+
+(* the index tree is the one mindex.NewRootNode infers from the entries in index order
+   (Model/StatusTrie.v unflat): when the insertion never meets a file where it needs a directory
+   nor an existing node where it puts a file (boolean guard unflat_ok: no entry path is equal to,
+   or a leading directory of, another), that tree holds exactly the entries and its names are
+   distinct per directory — so C27_status_eq applies to the state whose index tree is built
+   from the flat index *)
+Theorem C27_index_tree : forall entries,
+  C27Unflat.unflat_ok entries [] = true ->
+  (forall q l, In (q, l) (fl (unflat entries)) <-> In (q, l) entries) /\ MapDiff.tree_ok (unflat entries) = true.
+Proof. exact C27Unflat.unflat_spec. Qed.
+Print Assumptions C27_index_tree.
+
+Theorem C27_status_eq_entries : forall ts entries ps,
+  let ts' := mkTS (ts_fmt ts) (ts_filemode ts) (ts_idxtime ts) (ts_head ts) (unflat entries) (ts_wt ts)
+                  [] (ts_ign ts) (ts_ign_idx ts) (ts_excl ts) in
+  C27Unflat.unflat_ok entries [] = true -> C27TrieMain.ts_wf ts' = true ->
+  forallb (ok_path (flat_git ts')) ps = true ->
+  status_rec ts' ps = Some (git_status_ts ts' ps) /\
+  (forall q l, In (q, l) (fl (ts_index ts')) <-> In (q, l) entries).
+Proof.
+  intros ts entries ps ts' U W G. split.
+  - apply status_rec_git; [exact W|reflexivity|exact G].
+  - apply (proj1 (C27Unflat.unflat_spec entries U)).
+Qed.
+Print Assumptions C27_status_eq_entries.
+
+(* the walk of the theorems above is the recursive merge (C44's formulation); the code runs two
+   iterators.  The two-iterator loop of Model/StatusTrie.v — the one compared with the
+   implementation on every case, where its listing is also compared with the recursive merge's —
+   returns the same change list as the recursive merge for every pair of trees of a small scope
+   (two names, two leaf values, depth <= 2: 144 x 144 pairs), by computation *)
+Theorem C27_walks_agree_small :
+  List.length C27Small.all_trees = 144%nat /\
+  forallb (fun x => forallb (fun y => C27Small.agree x y) C27Small.all_trees) C27Small.all_trees = true.
+Proof. exact C27Small.walks_agree_small. Qed.
+Print Assumptions C27_walks_agree_small.
+
+(* --- skip-worktree entries (the two-iterator walk with Skip(), status_flat).
+   Names: a = [97], d = [100], e = [101], u = [117], x = [120], y = [121] *)
+Definition fileH (n : N) (c : N) : DiffTree.name * DiffTree.node := ([n], DiffTree.File (M_REG, [0; c])).
+Definition fileI (n : N) (c : N) : DiffTree.name * DiffTree.node := ([n], DiffTree.File (M_REG, [0; c; 2; 5; 0])).
+Definition fileW (n : N) (c : N) : DiffTree.name * DiffTree.node := ([n], DiffTree.File (M_REG, [c; 2; 5])).
+Definition dirN (n : N) (cs : DiffTree.tree) : DiffTree.name * DiffTree.node := ([n], DiffTree.Dir cs).
+Definition tsw (h i w : DiffTree.tree) (skip : list path) : tstate := mkTS 0 true 100 h i w skip [] [] None.
+
+(* a staged change of a skip-worktree entry is invisible to go-git; git reports 'M ' *)
+Theorem C27_skip_staged_refuted : exists ts ps,
+  status_flat ts ps = Some [] /\ git_status_ts ts ps = [([101], CMod, CUnmod)].
+Proof.
+  exists (tsw [fileH 97 1; fileH 101 1] [fileI 97 1; fileI 101 2] [fileW 97 1] [[101]]), [[97]; [101]].
+  split; vm_compute; reflexivity.
+Qed.
+Print Assumptions C27_skip_staged_refuted.
+
+(* untracked files in a directory all of whose entries are skip-worktree are hidden; git lists them *)
+Theorem C27_skip_dir_untracked_refuted : exists ts ps,
+  status_flat ts ps = Some [] /\ git_status_ts ts ps = [([100; 47; 117], CUntracked, CUntracked)].
+Proof.
+  exists (tsw [fileH 97 1; dirN 100 [fileH 120 1]] [fileI 97 1; dirN 100 [fileI 120 1]]
+              [fileW 97 1; dirN 100 [fileW 117 2]] [[100; 47; 120]]), [[97]; [100; 47; 117]; [100; 47; 120]].
+  split; vm_compute; reflexivity.
+Qed.
+Print Assumptions C27_skip_dir_untracked_refuted.
+
+(* the code before the repair compared NAMES when passing over a skipped noder: with the two
+   iterators at different depths a tracked skip-worktree file was listed as untracked; the
+   repaired walk (paths compared) agrees with git here *)
+Theorem C27_skip_names_unrepaired_refuted : exists ts ps,
+  status_flat_gen false ts ps = Some [([100; 47; 121], CUntracked, CUntracked); ([101], CUntracked, CUntracked)] /\
+  status_flat ts ps = Some [([100; 47; 121], CUntracked, CUntracked)] /\
+  git_status_ts ts ps = [([100; 47; 121], CUntracked, CUntracked)].
+Proof.
+  exists (tsw [dirN 100 [fileH 120 1]; fileH 101 1] [dirN 100 [fileI 120 1]; fileI 101 1]
+              [dirN 100 [fileW 120 1; fileW 121 2]; fileW 101 1] [[101]]),
+         [[100; 47; 120]; [100; 47; 121]; [101]].
+  repeat split; vm_compute; reflexivity.
+Qed.
+Print Assumptions C27_skip_names_unrepaired_refuted.
+
+(* a skip-worktree entry whose file is gone, or present and different, is passed over as in git *)
+Example C27_skip_plain :
+  let ts1 := tsw [fileH 97 1; fileH 101 1] [fileI 97 1; fileI 101 1] [fileW 97 1] [[101]] in
+  let ts2 := tsw [fileH 97 1; fileH 101 1] [fileI 97 1; fileI 101 1] [fileW 97 1; fileW 101 2] [[101]] in
+  status_flat ts1 [[97]; [101]] = Some (git_status_ts ts1 [[97]; [101]]) /\
+  status_flat ts2 [[97]; [101]] = Some (git_status_ts ts2 [[97]; [101]]).
+Proof. split; vm_compute; reflexivity. Qed.
+
+(* --- sub-second time stamps.  metadataMatches compares time.Time values (whole
+   seconds and nanoseconds) with Equal and Before; Model/Status.v keeps one number per
+   stamp.  For well-formed stamps (nanoseconds < 10^9) the code's two comparisons are
+   = and < on the nanosecond counts, so metadata_matches above is the code's test *)
+Theorem C27_ts_compare : forall a b, StatTime.ts_wf a = true -> StatTime.ts_wf b = true ->
+  ts_eqb a b = (ts_ns a =? ts_ns b) /\ ts_ltb a b = (ts_ns a <? ts_ns b).
+Proof. intros a b Ha Hb. split; [now apply ts_eqb_ns|now apply ts_ltb_ns]. Qed.
+Print Assumptions C27_ts_compare.
+
+(* the racy-git argument over two-part stamps: the clock may jump to any later
+   (seconds, nanoseconds) value, whatever the granularity of the file system *)
+Theorem C27_shortcut_sound_ns_partial : forall c sz h,
+  no_touch h = true ->
+  tls_matches (tls_run (tls_init c sz) h) = true -> tls_same (tls_run (tls_init c sz) h) = true.
+Proof. exact tls_shortcut_sound. Qed.
+Print Assumptions C27_shortcut_sound_ns_partial.
+
+(* comparing the mtime at whole-second granularity while the racy check keeps
+   nanoseconds is NOT equivalent: a same-second, same-size rewrite followed by a
+   later rewrite of the index (for another path) matches under the coarse test
+   and does not under the code's; the contents differ *)
+Theorem C27_shortcut_seconds_refuted : exists c sz h,
+  tls_matches (tls_run (tls_init c sz) h) = false /\
+  tls_matches_sec (tls_run (tls_init c sz) h) = true /\
+  tls_same (tls_run (tls_init c sz) h) = false.
+Proof.
+  exists 1, 2, [ETo (mkTs 7 500); EWrite 1 2; EStage; ETo (mkTs 7 900); EWrite 2 2; ETo (mkTs 8 0); ETouchIdx].
+  repeat split; reflexivity.
+Qed.
+Print Assumptions C27_shortcut_seconds_refuted.
+
 (* ------------------------------------------------------------ non-vacuity *)
 
 (* a state with staged and unstaged changes, an untracked and an ignored file,
@@ -132,6 +274,35 @@ Example C27_guard_inhabited :
   status ex_state (sort_paths (all_paths ex_state)) =
   [([97], CMod, CUnmod); ([98], CUnmod, CMod); ([99], CUnmod, CMod); ([100], CDel, CUnmod);
    ([101], CAdd, CDel); ([101; 47; 120], CUntracked, CUntracked); ([117], CUntracked, CUntracked)].
+Proof. vm_compute. split; reflexivity. Qed.
+
+(* a nested state with a .gitignore ("*.o" and "build/"), staged and unstaged changes, an
+   untracked file in a tracked directory, ignored files and an ignored directory: well-formed,
+   inside the guard, and the walk's listing is the expected one *)
+Definition ex_ts : tstate :=
+  mkTS 0 true 100
+    [fileH 97 1; dirN 100 [fileH 120 1; fileH 121 1]]
+    [fileI 97 2; dirN 100 [fileI 120 1; fileI 121 1]]
+    [([46; 103; 105; 116; 105; 103; 110; 111; 114; 101], DiffTree.File (M_REG, [7; 11; 9]));
+     fileW 97 2; dirN 100 [fileW 120 1; ([121], DiffTree.File (M_REG, [3; 2; 9])); fileW 117 4; ([122; 46; 111], DiffTree.File (M_REG, [4; 2; 9]))];
+     dirN 98 [fileW 113 4]; ([98; 46; 111], DiffTree.File (M_REG, [4; 2; 9]))]
+    [] [([], [42; 46; 111; 10; 98; 47; 10])] [] None.
+Example C27_trie_inhabited :
+  C27TrieMain.ts_wf ex_ts = true /\ forallb (ok_path (flat_git ex_ts)) (all_paths_ts ex_ts) = true /\
+  status_rec ex_ts (all_paths_ts ex_ts) =
+  Some [([46; 103; 105; 116; 105; 103; 110; 111; 114; 101], CUntracked, CUntracked); ([97], CMod, CUnmod);
+        ([100; 47; 117], CUntracked, CUntracked); ([100; 47; 121], CUnmod, CMod)] /\
+  status_flat ex_ts (all_paths_ts ex_ts) = status_rec ex_ts (all_paths_ts ex_ts).
+Proof. vm_compute. repeat split; reflexivity. Qed.
+
+Example C27_index_tree_inhabited :
+  let entries := [([[97]], (M_REG, [0; 2; 2; 5; 0])); ([[100]; [120]], (M_REG, [0; 1; 2; 5; 0])); ([[100]; [121]], (M_REG, [0; 1; 2; 5; 0]))] in
+  C27Unflat.unflat_ok entries [] = true /\ unflat entries = ts_index ex_ts.
+Proof. vm_compute. split; reflexivity. Qed.
+
+Example C27_timeline_ns_inhabited :
+  let h := [ETo (mkTs 7 500); EWrite 1 2; EStage; ETo (mkTs 7 900); EWrite 2 2; ETo (mkTs 8 0); EStage; ETo (mkTs 8 1)] in
+  no_touch h = true /\ tls_matches (tls_run (tls_init 0 0) h) = true.
 Proof. vm_compute. split; reflexivity. Qed.
 
 Example C27_timeline_inhabited :
